@@ -20,6 +20,7 @@
      CPPARSE <hex> ok <cpat> <hexString> | err | panic    ComponentPatternFromStr, String
      PPAIR <hex1> <hex2> ok <cmp> <eq> | err | panic      NamePattern.Compare/Equal of the two parsed patterns
      FULL <a> <digesthex> ok <name> | panic        Name.ToFullName
+     CSHIT <x> <y> miss | skip | hit <name>              fw/table PIT-CS: insert Data x, Data y, look up x (the Data returned must be named x)
      CONV/DIST lines are for the check script and are skipped here.
    Output: "DIVERGE <lineno> <kind> model=<..> impl=<..>" when model and implementation disagree,
            "SPECFAIL <lineno> <kind> <what>" when the implementation's observations violate the spec predicate,
@@ -116,8 +117,10 @@ let () =
           cmpstr "PAIRBYTES" (hexf (name_bytes na) ^ " " ^ hexf (name_bytes nb)) (ea ^ " " ^ eb);
           let same_input = bytes_eqb (name_hash_input na) (name_hash_input nb) in
           if same_input && heq <> "1" then diverge "HASHFN" "equal-hash-input=>equal-hash" "hashes-differ";
-          if (not same_input) && heq = "1" then note "64-bit hash collision between names with different hash inputs";
-          if same_input && not (name_eqb na nb) then note "different names feed the same bytes to the hasher (hash_input_not_injective)";
+          (* the hash input is injective (hash_input_injective): equal hashes of different names are either a 2^-64 event
+             of the hash function or an implementation whose hash input no longer determines the name *)
+          if (not (name_eqb na nb)) && heq = "1" then
+            specfail "HASHCOLL" "two different names have the same Hash(): tables keyed by the hash conflate them";
           (* oracle on the implementation's observations *)
           if not (pair_ok (cmp_of_string c) (bool_of_01 e) (bool_of_01 p1) (bool_of_01 p2) (unhexf ea) (unhexf eb) (bool_of_01 heq))
           then specfail "PAIR" "Compare/Equal/IsPrefix/Bytes/Hash observations of the pair are mutually inconsistent (pair_ok)";
@@ -189,6 +192,11 @@ let () =
       | "FULL" :: a :: dg :: rest ->
           let m = match to_full_name (unhexf dg) (name_of_string a) with POk n -> "ok " ^ string_of_name n | PErr -> "err" | PPanic -> "panic" in
           cmpstr "FULL" m (String.concat " " rest)
+      | "CSHIT" :: x :: y :: rest ->
+          (match rest with
+           | ["miss"] | ["skip"] -> ()
+           | ["hit"; n] -> if n <> x then specfail "CSHIT" ("the Content Store answered an Interest for the first name with Data named " ^ cut n)
+           | _ -> specfail "CSHIT" "the Content Store probe panicked")
       | "CONV" :: _ | "DIST" :: _ -> ()
       | [""] | [] -> ()
       | _ -> Printf.printf "BADLINE %d %s\n" !lineno (cut line)
